@@ -514,13 +514,24 @@ func VerifC02Render(template, deviations int) {
 	if !bytes.Equal(gotData, []byte(want)) {
 		// an ill-typed value may also be answered by nulling a farther nullable ancestor, up to data:null
 		ok2 := ref.illTyped && bytes.Equal(gotData, []byte("null"))
-		for far := 1; !ok2 && ref.illTyped && far <= 4; far++ {
-			r2 := &zzRef{farther: far}
-			w2 := r2.complete(plan, data)
-			if w2 == zzPropagate {
-				w2 = "null"
+		// each ill-typed value may null a farther nullable ancestor, independently of the others
+		for f1 := 0; !ok2 && ref.illTyped && f1 <= 4; f1++ {
+			for f2 := 0; !ok2 && f2 <= 4; f2++ {
+				for f3 := 0; !ok2 && f3 <= 4; f3++ {
+					r2 := &zzRef{fars: []int{f1, f2, f3}}
+					w2 := r2.complete(plan, data)
+					if w2 == zzPropagate {
+						w2 = "null"
+					}
+					ok2 = bytes.Equal(gotData, []byte(w2))
+					if ref.nIll < 3 {
+						break
+					}
+				}
+				if ref.nIll < 2 {
+					break
+				}
 			}
-			ok2 = bytes.Equal(gotData, []byte(w2))
 		}
 		if !ok2 {
 			verifAssert(false, "data equals the reference completion ("+ref.why+")")
